@@ -45,7 +45,8 @@ func Pow(a, n uint) (uint, error) {
 	const op = "Computing power of unsigned integer"
 
 	// Ensure that this will not overflow
-	if a > 0 && boundLog2(a)*n >= bits.UintSize {
+	// (the product is only formed when it cannot wrap around)
+	if b := boundLog2(a); a > 0 && b > 0 && (n >= bits.UintSize || b*n >= bits.UintSize) {
 		return 0, errors.New(
 			op, errors.Overflow,
 			"%d^%d is likely to overflow uint", a, n,
